@@ -273,16 +273,29 @@ class Match(Ext):
     def __init__(self, op_text, names):
         self.op_text, self.names = op_text, names
 
+    def _one(self, idx):
+        if idx == 1:
+            return self.op_text
+        if idx == 2:
+            return ArgStr(self.names)
+        raise Undecided("group index")
+
     def sym_getattr(self, it, attr):
         if attr == "group":
             def g(i, a, k):
-                if a[0] == 1:
-                    return self.op_text
-                if a[0] == 2:
-                    return ArgStr(self.names)
-                raise Undecided("group index")
+                if len(a) == 1:
+                    return self._one(a[0])
+                return tuple(self._one(x) for x in a)
             return PyCallable(g)
+        if attr == "groups":
+            return PyCallable(lambda i, a, k: (self._one(1), self._one(2)))
         raise Undecided(attr)
+
+    def sym_getitem(self, it, k):
+        return self._one(k)
+
+    def sym_truth(self, it):
+        return True
 
 
 class RegexObj(Ext):
